@@ -361,6 +361,8 @@ def run_one(unit, run, workdir, tier='quick', keep=False, extra_flags='', trace_
         flags = ' '.join(f for f in SAFETY_FLAGS.split() if not any(d in f for d in drop))
     if run.get('unwind'):
         flags += ' --unwind %s --unwinding-assertions' % run['unwind']
+    if run.get('unwindset'):
+        flags += ' --unwindset %s' % run['unwindset']
     timeout = int(run.get('timeout', 300))
     if tier == 'thorough':
         timeout *= 4
